@@ -18,7 +18,7 @@ theorem apply_splitAt_alloc (a : AS) (k s n e : Nat) :
 theorem allocAt_refines {t : Tab} {a : AS} {L : Nat → List Nat} {k s e n : Nat} (debug : Bool)
     (h : Rel t a L) (hr : IsRun a s e) (hown : a.own s = some k) (hn : 1 ≤ n) (hf : s + n ≤ e) :
     ∃ t' L', allocAt debug t (hd k) (n : Int) (s : Int) ((e : Int) - s) = .ok (t', (s : Int)) ∧
-      Rel t' (Runs.apply a (.alloc k s n e)) L' := by
+      Rel t' (Runs.apply a (.alloc k s n e)) L' ∧ t'.heads = t.heads := by
   have hse := hr.1
   have hk := ((h.run s e hr).mem k hown).1
   unfold allocAt
@@ -44,7 +44,7 @@ theorem allocAt_refines {t : Tab} {a : AS} {L : Nat → List Nat} {k s e n : Nat
     obtain ⟨f1, f2⟩ := take_finish r3 hr1 hown1
     rw [f1]
     rw [apply_splitAt_alloc] at f2
-    exact ⟨_, _, rfl, f2⟩
+    exact ⟨_, _, rfl, f2, by simp⟩
   · have c2 : ¬ (e : Int) - s > n := by omega
     have hen : n = e - s := by omega
     simp only [c2, if_false, pure, Except.pure]
@@ -59,7 +59,7 @@ theorem allocAt_refines {t : Tab} {a : AS} {L : Nat → List Nat} {k s e n : Nat
     obtain ⟨f1, f2⟩ := take_finish r3 hr hown
     rw [f1]
     rw [← hen] at f2
-    exact ⟨_, _, rfl, f2⟩
+    exact ⟨_, _, rfl, f2, by simp⟩
 
 /-- **`set_uncoalescable`.** -/
 theorem setUnc_refines {t : Tab} {a : AS} {L : Nat → List Nat} {u : Nat} (h : Rel t a L) (hu : u ≤ a.units) :
@@ -160,7 +160,7 @@ theorem nodup_length_le : ∀ (N : Nat) (l : List Nat), l.Nodup → (∀ x ∈ l
 theorem alloc_refines {t : Tab} {a : AS} {L : Nat → List Nat} {k n : Nat} (debug : Bool)
     (h : Rel t a L) (hk : (k : Int) < t.heads) (hn : 1 ≤ n) :
     (∃ (s e : Nat) (t' : Tab) (L' : Nat → List Nat), alloc debug t (hd k) (n : Int) = .ok (t', (s : Int)) ∧ Pre a (.alloc k s n e) ∧
-      Rel t' (Runs.apply a (.alloc k s n e)) L') ∨
+      Rel t' (Runs.apply a (.alloc k s n e)) L' ∧ t'.heads = t.heads) ∨
     (alloc debug t (hd k) (n : Int) = .ok (t, FAILURE) ∧ ¬ CanAlloc a k n) := by
   obtain ⟨q1, q2, q3⟩ := h.list k hk
   have hneg := hd_neg k
@@ -209,15 +209,15 @@ theorem alloc_refines {t : Tab} {a : AS} {L : Nat → List Nat} {k n : Nat} (deb
     have hfit : y + n ≤ e := by
       have : (n : Int) ≤ sizeOf t (y : Int) := hy
       rw [hsz] at this; omega
-    obtain ⟨t', L', r1, r2⟩ := allocAt_refines debug h hr hown hn hfit
+    obtain ⟨t', L', r1, r2, r3⟩ := allocAt_refines debug h hr hown hn hfit
     rw [hsz]
-    exact ⟨y, e, t', L', r1, ⟨hr, hown, hn, hfit⟩, r2⟩
+    exact ⟨y, e, t', L', r1, ⟨hr, hown, hn, hfit⟩, r2, r3⟩
 
 /-- **`alloc_from_unit`** on a run start: succeeds iff the run is free (on the caller's head) and fits. -/
 theorem allocFromUnit_refines {t : Tab} {a : AS} {L : Nat → List Nat} {k s e n : Nat} (debug : Bool)
     (h : Rel t a L) (hr : IsRun a s e) (hn : 1 ≤ n) :
     (a.own s = some k → s + n ≤ e → ∃ t' L', allocFromUnit debug t (hd k) (n : Int) (s : Int) = .ok (t', (s : Int)) ∧
-      Rel t' (Runs.apply a (.alloc k s n e)) L') ∧
+      Rel t' (Runs.apply a (.alloc k s n e)) L' ∧ t'.heads = t.heads) ∧
     ((a.own s = none ∨ e < s + n) → allocFromUnit debug t (hd k) (n : Int) (s : Int) = .ok (t, FAILURE)) := by
   have hlt := h.run_lt hr
   have ok := h.run s e hr
